@@ -3,7 +3,9 @@ package main
 import (
 	"fmt"
 	"math/rand"
+	"sort"
 	"strconv"
+	"strings"
 	"sync"
 	"sync/atomic"
 	"time"
@@ -14,6 +16,7 @@ import (
 	"github.com/vx-labs/wasp/v4/topics"
 	"github.com/vx-labs/wasp/v4/wasp"
 	"github.com/vx-labs/wasp/v4/wasp/ack"
+	"github.com/vx-labs/wasp/v4/wasp/api"
 	"github.com/vx-labs/wasp/v4/wasp/audit"
 	"github.com/vx-labs/wasp/v4/wasp/distributed"
 	"github.com/vx-labs/wasp/v4/wasp/sessions"
@@ -44,6 +47,8 @@ func (d *stressDomain) step(f []string) string {
 		return stressAckQueue(dur, int64(seed))
 	case "tries":
 		return stressTries(dur, int64(seed))
+	case "hotkey":
+		return stressHotKey(dur, int64(seed))
 	case "dist":
 		return stressDist(dur, int64(seed))
 	case "registry":
@@ -193,6 +198,89 @@ func stressTries(dur time.Duration, seed int64) string {
 }
 
 // concurrent session/subscription/retained changes on distinct keys while gossip merges run
+func notHot(l []api.RetainedMessage) []api.RetainedMessage {
+	out := l[:0]
+	for _, m := range l {
+		if string(m.Publish.Topic) != "mp/hot" {
+			out = append(out, m)
+		}
+	}
+	return out
+}
+
+// stressHotKey: all workers write the same keys of the three replicated stores at once, round after round; after every
+// round the node must hold, for each key, the update with the greatest stamp — which is what a peer that received
+// every broadcast holds
+func stressHotKey(dur time.Duration, seed int64) string {
+	// unique, strictly increasing stamps whatever the resolution of the wall clock
+	var ctr int64 = 1000
+	distributed.VerifSetClock(func() int64 { return atomic.AddInt64(&ctr, 1) })
+	defer distributed.VerifSetClock(func() int64 { return time.Now().UnixNano() })
+	stop := time.Now().Add(dur)
+	diverged, rounds := 0, 0
+	for time.Now().Before(stop) {
+		rounds++
+		mk := func(peer uint64) distributed.State {
+			q := &memberlist.TransmitLimitedQueue{RetransmitMult: 1, NumNodes: func() int { return 1 }}
+			return distributed.NewState(peer, q, audit.VerifRecorder(nil))
+		}
+		a, b := mk(1), mk(2)
+		a.SessionMetadatas().Create("hs", "hc", 0, nil, "mp")
+		var wg sync.WaitGroup
+		start := make(chan struct{})
+		for w := 0; w < stressWorkers; w++ {
+			wg.Add(1)
+			go func(w int) {
+				defer wg.Done()
+				rng := rand.New(rand.NewSource(seed + int64(rounds*100+w)))
+				<-start
+				for k := 0; k < 6; k++ {
+					switch rng.Intn(5) {
+					case 0:
+						a.Topics().Delete([]byte("mp/hot"))
+					case 1, 2:
+						a.Topics().Set(&packet.Publish{Header: &packet.Header{Retain: true}, Topic: []byte("mp/hot"), Payload: []byte(fmt.Sprintf("%d-%d", w, k))})
+					case 3:
+						a.Subscriptions().Create("hs", []byte("mp/hot"), int32(rng.Intn(3)))
+					case 4:
+						a.Subscriptions().Delete("hs", []byte("mp/hot"))
+					}
+				}
+			}(w)
+		}
+		close(start)
+		wg.Wait()
+		for {
+			msgs := a.Distributor().GetBroadcasts(0, 1<<20)
+			if len(msgs) == 0 {
+				break
+			}
+			for _, m := range msgs {
+				b.Distributor().NotifyMsg(m)
+			}
+		}
+		show := func(s distributed.State) string {
+			l, _ := s.Topics().Get([]byte("mp/hot"))
+			out := []string{}
+			for _, m := range l {
+				out = append(out, string(m.Publish.Payload))
+			}
+			for _, u := range s.Subscriptions().All() {
+				out = append(out, fmt.Sprintf("sub:%s:%d", u.Pattern, u.QoS))
+			}
+			sort.Strings(out)
+			return strings.Join(out, ",")
+		}
+		if show(a) != show(b) {
+			diverged++
+		}
+	}
+	if rounds == 0 {
+		return "no-rounds"
+	}
+	return fmt.Sprintf("same-key-writers-diverged=%d", diverged)
+}
+
 func stressDist(dur time.Duration, seed int64) string {
 	mk := func(peer uint64) distributed.State {
 		q := &memberlist.TransmitLimitedQueue{RetransmitMult: 1, NumNodes: func() int { return 1 }}
@@ -208,8 +296,18 @@ func stressDist(dur time.Duration, seed int64) string {
 			defer wg.Done()
 			rng := rand.New(rand.NewSource(seed + int64(w)))
 			n := 0
+			hotWrites := 0
 			for time.Now().Before(stop) && n < 1500 {
-				switch rng.Intn(6) {
+				switch rng.Intn(7) {
+				case 6:
+					// every worker writes the same retained topic: whatever order the lock decides, the node must
+					// end up with the update carrying the greatest stamp, which is what its peers keep
+					hotWrites++
+					if rng.Intn(4) == 0 {
+						a.Topics().Delete([]byte("mp/hot"))
+					} else {
+						a.Topics().Set(&packet.Publish{Header: &packet.Header{Retain: true}, Topic: []byte("mp/hot"), Payload: []byte(fmt.Sprintf("%d-%d", w, hotWrites))})
+					}
 				case 0:
 					id := fmt.Sprintf("s%d-%d", w, n)
 					if a.SessionMetadatas().Create(id, id, 0, nil, "mp") == nil {
@@ -240,12 +338,34 @@ func stressDist(dur time.Duration, seed int64) string {
 	for _, n := range created {
 		want += n
 	}
+	for {
+		msgs := a.Distributor().GetBroadcasts(0, 1<<20)
+		if len(msgs) == 0 {
+			break
+		}
+		for _, m := range msgs {
+			b.Distributor().NotifyMsg(m)
+		}
+	}
 	b.Distributor().MergeRemoteState(a.Distributor().LocalState(false), false)
+	hot := func(s distributed.State) string {
+		l, _ := s.Topics().Get([]byte("mp/hot"))
+		out := []string{}
+		for _, m := range l {
+			out = append(out, string(m.Publish.Payload))
+		}
+		return strings.Join(out, ",")
+	}
+	diverged := 0
+	if hot(a) != hot(b) {
+		diverged = 1
+	}
 	ret, _ := a.Topics().Get([]byte("mp/#"))
 	retB, _ := b.Topics().Get([]byte("mp/#"))
-	return fmt.Sprintf("sessions-missing=%d subscriptions-missing=%d retained-missing=%d replica-sessions-missing=%d replica-subscriptions-missing=%d replica-retained-missing=%d",
+	ret, retB = notHot(ret), notHot(retB)
+	return fmt.Sprintf("sessions-missing=%d subscriptions-missing=%d retained-missing=%d replica-sessions-missing=%d replica-subscriptions-missing=%d replica-retained-missing=%d same-key-writers-diverged=%d",
 		want-len(a.SessionMetadatas().All()), want-len(a.Subscriptions().All()), want-len(ret),
-		want-len(b.SessionMetadatas().All()), want-len(b.Subscriptions().All()), want-len(retB))
+		want-len(b.SessionMetadatas().All()), want-len(b.Subscriptions().All()), want-len(retB), diverged)
 }
 
 type nopConn struct{}
